@@ -561,6 +561,12 @@ func (m *Manager) rotateWAL() error {
 		return fmt.Errorf("failed to create new WAL: %w", err)
 	}
 
+	// Sequence numbers continue across log files. The old WAL is already marked as
+	// rotating, so once its lock is obtained no further entry can be stamped from it.
+	if currentWAL != nil {
+		newWAL.UpdateNextSequence(currentWAL.GetNextSequence())
+	}
+
 	// Store the old WAL for proper closure
 	oldWAL := m.wal
 
